@@ -73,6 +73,85 @@ class Build:
         return self.fn()
 
 
+N_BAD_ARG = 10
+N_BAD_VAL = 7
+
+
+def bad_argvals(n):
+    """The n-th way of building sampling points with a key / value of the wrong class: every one must
+    raise TypeError (typed dictionaries) — also when the wrong value is itself an Argvals / a Values."""
+    A, V, FD = _fd()
+    da = lambda: A.DenseArgvals({"input_dim_0": grid(3, 0)})  # noqa: E731
+    n %= N_BAD_ARG
+    if n == 0:
+        return A.DenseArgvals({0: grid(3, 0)})
+    if n == 1:
+        return A.DenseArgvals({"input_dim_0": [0.0, 1.0, 2.0]})
+    if n == 2:
+        return A.IrregularArgvals({"a": da()})
+    if n == 3:
+        return A.IrregularArgvals({0: grid(3, 0)})
+    if n == 4:
+        return A.IrregularArgvals({0: A.IrregularArgvals({0: da()})})
+    if n == 5:
+        return A.DenseArgvals({"input_dim_0": da()})
+    if n == 6:
+        return A.IrregularArgvals({0: V.DenseValues(np.ones((2, 3)))})
+    if n == 7:
+        return A.IrregularArgvals({0: {"input_dim_0": grid(3, 0)}})
+    if n == 8:
+        return A.IrregularArgvals({0: None})
+    return A.IrregularArgvals({1.5: da()})
+
+
+def bad_values(n):
+    A, V, FD = _fd()
+    n %= N_BAD_VAL
+    if n == 0:
+        return V.IrregularValues({"a": np.ones(3)})
+    if n == 1:
+        return V.IrregularValues({0: [1.0, 2.0, 3.0]})
+    if n == 2:
+        return V.IrregularValues({0: V.IrregularValues({0: np.ones(3)})})
+    if n == 3:
+        return V.IrregularValues({0: A.DenseArgvals({"input_dim_0": grid(3, 0)})})
+    if n == 4:
+        return V.IrregularValues({0: None})
+    if n == 5:
+        return V.IrregularValues({0.5: np.ones(3)})
+    return V.IrregularValues({0: 3.0})
+
+
+N_BAD_ITEM = 8
+
+
+def bad_item_assign(obj, target, n):
+    """`obj.argvals[k] = w` / `obj.values[k] = w` with a key or value of the wrong class (n-th variant).
+    Returns False when the target is not a typed dictionary (values of a dense object)."""
+    A, V, FD = _fd()
+    da = lambda: A.DenseArgvals({"input_dim_0": grid(3, 0)})  # noqa: E731
+    n %= N_BAD_ITEM
+    if isinstance(obj, FD.DenseFunctionalData):
+        if target == "v":
+            return False
+        k0 = next(iter(obj.argvals.keys()), "input_dim_0")
+        key, val = [(k0, da()), (k0, [0.0, 1.0]), (0, grid(3, 0)), (k0, A.IrregularArgvals({0: da()})), (k0, None),
+                    (k0, {"x": grid(2, 0)}), (1.5, grid(3, 0)), (k0, 2.0)][n]
+        obj.argvals[key] = val
+        return True
+    if target == "a":
+        k0 = next(iter(obj.argvals.keys()), 0)
+        key, val = [(k0, A.IrregularArgvals({0: da()})), (k0, grid(3, 0)), (k0, {"input_dim_0": grid(3, 0)}), ("a", da()),
+                    (k0, V.DenseValues(np.ones((2, 3)))), (k0, None), (k0, V.IrregularValues({0: np.ones(3)})), (0.5, da())][n]
+        obj.argvals[key] = val
+        return True
+    k0 = next(iter(obj.values.keys()), 0)
+    key, val = [(k0, [1.0, 2.0]), (k0, V.IrregularValues({0: np.ones(3)})), ("a", np.ones(3)), (k0, da()), (k0, None),
+                (0.5, np.ones(3)), (k0, 3.0), (k0, A.IrregularArgvals({0: da()}))][n]
+    obj.values[key] = val
+    return True
+
+
 _BAD_ARG = 0
 
 
@@ -92,20 +171,9 @@ def parse_arg(tk: Tokens):
         )
     if k == "oa":
         return lambda: {"input_dim_0": grid(3, 0)}
-    if k == "ba":
-        def bad():
-            global _BAD_ARG
-            _BAD_ARG += 1
-            c = _BAD_ARG % 4
-            if c == 0:
-                return A.DenseArgvals({0: grid(3, 0)})
-            if c == 1:
-                return A.DenseArgvals({"input_dim_0": [0.0, 1.0, 2.0]})
-            if c == 2:
-                return A.IrregularArgvals({"a": A.DenseArgvals({"input_dim_0": grid(3, 0)})})
-            return A.IrregularArgvals({0: grid(3, 0)})
-
-        return bad
+    if k.startswith("ba"):
+        n = int(k[2:] or 0)
+        return lambda: bad_argvals(n)
     raise ValueError("bad arg token " + k)
 
 
@@ -127,15 +195,9 @@ def parse_val(tk: Tokens):
         return lambda: V.IrregularValues({l: obs_values(sh, r) for l, sh, r in obs})
     if k == "ov":
         return lambda: np.ones((2, 3))
-    if k == "bv":
-        def bad():
-            global _BAD_ARG
-            _BAD_ARG += 1
-            if _BAD_ARG % 2:
-                return V.IrregularValues({"a": np.ones(3)})
-            return V.IrregularValues({0: [1.0, 2.0, 3.0]})
-
-        return bad
+    if k.startswith("bv"):
+        n = int(k[2:] or 0)
+        return lambda: bad_values(n)
     raise ValueError("bad val token " + k)
 
 
@@ -222,6 +284,13 @@ def show_grid(x):
 
 
 def show_state(x):
+    try:
+        return _show_state(x)
+    except Exception as e:  # noqa: BLE001  (a corrupted object: wrong-class items inside the dictionaries)
+        return "?corrupt:" + type(e).__name__
+
+
+def _show_state(x):
     A, V, FD = _fd()
     if x is None:
         return "E"
